@@ -5,6 +5,7 @@
 -/
 import AttrsModel.Proofs.InitWf
 import AttrsModel.Proofs.InitIR
+import AttrsModel.Proofs.C01Calls
 
 namespace Attrs.C01
 open Attrs.Init
@@ -135,6 +136,52 @@ theorem C01_annotations (a : Attr) :
   unfold annotationOf
   cases a.init <;> cases a.conv <;> cases a.type <;> cases a.convType <;> simp
 
+theorem fault_none_of_wf (c : Case) (hwf : wf c = true) : c.run.fault = none := by
+  unfold wf at hwf
+  simp only [Bool.and_eq_true, eff_fault] at hwf
+  simpa using hwf.1.1.1.1.1.1.1
+
+/-- **C01_calls**: the converter / factory invocations of a well-formed call of the modelled initializer are
+    exactly the ones the statement allows (`expectedCalls`, written from the statement), in field order —
+    whatever pre-init / validator / post-init callbacks run around them. -/
+theorem C01_calls (c : Case) (hwf : wf c = true) (hk : known c = [])
+    (hok : callOk (params c.run.attrs) c.call = true) :
+    ((runInit c).trace.filter isCall).map blankArgs = expectedCalls c.run.attrs c.call := by
+  have hb := bodyOK_of_wf c hwf hk hok
+  have ht := (runInit_spec c hb).2.2.1
+  rw [ht, eff_fault, fault_none_of_wf c hwf, cutAt_none, callsOf_expectedTrace]
+  rfl
+
+/-- **C01_converter_once**: in one well-formed construction the converter of a field of the class is invoked
+    exactly once if the field participates and has a converter, and never otherwise; its factory exactly once
+    if the field participates and no value was supplied for it (`init=False`, or the parameter was not
+    passed) and its default is a factory, and never otherwise — so every instance gets a value that went
+    through the converter once, in that call, and a factory result of its own. -/
+theorem C01_converter_once (c : Case) (hwf : wf c = true) (hk : known c = [])
+    (hok : callOk (params c.run.attrs) c.call = true) (a : Attr) (ha : a ∈ c.run.attrs) :
+    callCount "conv" a.name (runInit c).trace = (if participates a && a.conv.isSome then 1 else 0) ∧
+    callCount "factory" a.name (runInit c).trace =
+      (if participates a && fromFactory c.run.attrs c.call a then 1 else 0) := by
+  have hc : callsOf (runInit c).trace = expectedCalls c.run.attrs c.call := C01_calls c hwf hk hok
+  have hnd : (c.run.attrs.map (·.name)).Nodup := by
+    unfold wf at hwf
+    simp only [Bool.and_eq_true, eff_attrs] at hwf
+    exact of_decide_eq_true hwf.1.1.1.1.1.1.2
+  have h := callCount_expectedCalls c.run.attrs c.call hnd a ha
+  rw [← hc, callCount_callsOf _ _ (Or.inl rfl), callCount_callsOf _ _ (Or.inr rfl)] at h
+  exact h
+
+/-- **C01_calls_only_fields**: no converter or factory other than those of the class's participating fields
+    is invoked by a well-formed construction. -/
+theorem C01_calls_only_fields (c : Case) (hwf : wf c = true) (hk : known c = [])
+    (hok : callOk (params c.run.attrs) c.call = true) (e : Event) (he : e ∈ (runInit c).trace)
+    (hcall : isCall e = true) :
+    ∃ a ∈ c.run.attrs, participates a = true ∧ e.id.field = a.name := by
+  have hm : blankArgs e ∈ expectedCalls c.run.attrs c.call := by
+    rw [← C01_calls c hwf hk hok]
+    exact List.mem_map.2 ⟨e, List.mem_filter.2 ⟨he, hcall⟩, rfl⟩
+  exact expectedCalls_fields _ _ (blankArgs e) hm
+
 /-- **C01_model_meets_spec**: the model satisfies the declarative specification on every well-formed case
     outside the listed known finding (K3). -/
 theorem C01_model_meets_spec (c : Case) (hwf : wf c = true) (hk : known c = []) :
@@ -145,13 +192,18 @@ theorem C01_model_meets_spec (c : Case) (hwf : wf c = true) (hk : known c = []) 
     have hb := bodyOK_of_wf c hwf hk hok
     obtain ⟨h1, h2, _, _, _, _⟩ := runInit_spec c hb
     obtain ⟨e, v⟩ := C01_values c hwf hk hok
-    simp [h1, h2, hok, e, v]
+    have ht := C01_calls c hwf hk hok
+    simp [h1, h2, hok, e, v, ht]
   | false =>
     have hte := (C01_bind_iff c hwf hk).2 hok
     have : bind (params c.eff.attrs) c.call = none := bind_none _ _ (by simpa using hok)
-    have hs : (runInit c).sig = sigOf c.eff.attrs ∧ (runInit c).annotations = annotationsOf c.eff.attrs := by
+    have hs : (runInit c).sig = sigOf c.eff.attrs ∧ (runInit c).annotations = annotationsOf c.eff.attrs ∧
+        (runInit c).trace = [] := by
       unfold runInit; dsimp only; rw [this]; simp
-    simp [hs.1, hs.2, hok, hte]
+    simp [hs.1, hs.2.1, hs.2.2, hok, hte]
+
+/-- the model is the C01 view of the full observation -/
+theorem model_eq_view (c : Case) : model c = view (runInit c) := rfl
 
 end Attrs.C01
 
@@ -174,6 +226,32 @@ def k3Witness : Case :=
 theorem C01_known_slot_belief_witness :
     wf k3Witness = true ∧ "K3" ∈ known k3Witness ∧ spec k3Witness (model k3Witness) = false := by
   refine ⟨by decide, by decide, by decide⟩
+
+/-- a class with one `init=False` field `x` that has a plain default and a plain converter, constructed
+    without arguments -/
+def constDefaultCase : Case :=
+  { run := { cfg := { frozen := false, slots := false, cacheHash := false, isExc := false, pre := .none,
+                      post := false, clsHook := false, runValidators := true, collectByMro := true },
+             attrs := [{ name := "x", alias := "x", dflt := .value, init := false, kwOnly := false,
+                         conv := some { takesSelf := false, takesField := false },
+                         validators := 0, onSet := .unset, isSlot := false, type := none, convType := none }],
+             own := ["x"], bases := [], cacheIsSlot := false, fault := none },
+    call := { pos := [], kw := [] }, isDefine := false, clsOnSet := .unset }
+
+/-- non-vacuity of `C01_converter_once`, and what the model does on `constDefaultCase`: one converter
+    invocation in the call. -/
+example : wf constDefaultCase = true ∧ known constDefaultCase = [] ∧
+    callOk (params constDefaultCase.run.attrs) constDefaultCase.call = true ∧
+    (model constDefaultCase).trace = [callEv "conv" "x"] := by
+  refine ⟨by decide, by decide, by decide, by decide⟩
+
+/-- **C01_spec_rejects_hoisted_conversion**: an initializer that stores the right symbolic value but did not
+    invoke the converter during the call (the default was converted once and for all while the class was built,
+    every instance shares the result) violates the specification, although all values agree. -/
+theorem C01_spec_rejects_hoisted_conversion :
+    ({ model constDefaultCase with trace := [] } : Obs).values = (model constDefaultCase).values ∧
+    spec constDefaultCase { model constDefaultCase with trace := [] } = false := by
+  refine ⟨by decide, by decide⟩
 
 /-- non-vacuity: a non-trivial well-formed case without known findings exists (hypotheses of the theorems
     above are satisfiable) -/
@@ -255,6 +333,16 @@ theorem C01_script_values (sc : Script.Case) (o : Script.Obs) (hag : Script.mode
       sc.run.attrs.map (fun a => (a.name, expectedValue sc.run.attrs call a)) := by
   rw [C01_script_transfer sc o hag (names_nodup_of_wf _ hwf) call none runV]
   exact C01_values (sc.at call none runV) hwf hk hok
+
+/-- **C01_script_calls**: on such a class every well-formed call of the real source invokes exactly the
+    converters / factories the statement allows, each once, in field order. -/
+theorem C01_script_calls (sc : Script.Case) (o : Script.Obs) (hag : Script.model sc = o) (call : Call) (runV : Bool)
+    (hwf : wf (sc.at call none runV) = true) (hk : known (sc.at call none runV) = [])
+    (hok : callOk (params sc.run.attrs) call = true) :
+    ((scriptObs o.script (sc.at call none runV).eff call).trace.filter isCall).map blankArgs =
+      expectedCalls sc.run.attrs call := by
+  rw [C01_script_transfer sc o hag (names_nodup_of_wf _ hwf) call none runV]
+  exact C01_calls (sc.at call none runV) hwf hk hok
 
 /-! ### the script check on a concrete class (non-vacuity and sensitivity of `Script.spec`) -/
 
